@@ -34,6 +34,9 @@ pub struct ROp {
 pub struct Flow {
     pub key: u64,
     pub len: usize,
+    /// the reader does not start reading before this much simulated time has passed
+    #[serde(default)]
+    pub read_start_delay_us: u64,
     pub writes: Vec<WOp>,
     pub reads: Vec<ROp>,
 }
@@ -111,7 +114,7 @@ fn gen_flow(rng: &mut Rng, window: u64, max_len: usize) -> Flow {
             pause_us: if rng.chance_pm(200) { rng.range(1, 30_000) } else { 0 },
         })
         .collect();
-    Flow { key: rng.next_u64(), len, writes, reads }
+    Flow { key: rng.next_u64(), len, read_start_delay_us: 0, writes, reads }
 }
 
 pub fn gen_plan(seed: u64, faulty: bool, tier: Tier) -> Plan {
@@ -144,7 +147,7 @@ pub fn gen_plan(seed: u64, faulty: bool, tier: Tier) -> Plan {
     };
     let max_len = 200_000;
     let mut counts: HashMap<(bool, bool), u64> = HashMap::new();
-    let mut streams = Vec::new();
+    let mut streams: Vec<StreamPlan> = Vec::new();
     for _ in 0..nstreams {
         let opener_is_client = rng.coin();
         let bidi = rng.coin();
@@ -181,6 +184,35 @@ pub fn gen_plan(seed: u64, faulty: bool, tier: Tier) -> Plan {
         streams.push(StreamPlan { opener_is_client: true, bidi: false, start_us: 0, fwd, back: None });
     }
     let read_cap = if rng.chance_pm(250) { rng.usize(1, 3) } else { 0 };
+    // "credit residue" mode: a bulk stream that is not read for a while eats the acceptor's
+    // *connection* window down to a residue of 0..120 bytes, then small streams are opened: their
+    // preamble and first bytes have to squeeze through whatever credit is left
+    if rng.chance_pm(150) {
+        let opener_is_client = rng.coin();
+        let w = *rng.pick(&[4096u64, 8192]);
+        {
+            let acc = if opener_is_client { &mut sk } else { &mut ck };
+            acc.stream_recv_window = w;
+            acc.recv_window = w;
+        }
+        streams.clear();
+        let bulk_len = (w as usize).saturating_sub(rng.usize(0, 120));
+        let mut bulk = gen_flow(&mut rng, w, max_len);
+        bulk.len = bulk_len;
+        bulk.writes = vec![WOp { n: bulk_len, mode: 1, pause_us: 0 }];
+        bulk.read_start_delay_us = rng.range(150_000, 400_000);
+        streams.push(StreamPlan { opener_is_client, bidi: false, start_us: 0, fwd: bulk, back: None });
+        for _ in 0..rng.usize(1, 3) {
+            let bidi = rng.coin();
+            let mut fwd = gen_flow(&mut rng, 64, 300);
+            fwd.len = fwd.len.max(1);
+            if fwd.writes.is_empty() {
+                fwd.writes = vec![WOp { n: fwd.len, mode: rng.below(3) as u8, pause_us: 0 }];
+            }
+            let back = if bidi { Some(gen_flow(&mut rng, 64, 300)) } else { None };
+            streams.push(StreamPlan { opener_is_client, bidi, start_us: rng.range(40_000, 120_000), fwd, back });
+        }
+    }
     Plan { seed, rt, net, ck, sk, read_cap, streams }
 }
 
@@ -251,6 +283,9 @@ fn classify_io(e: &str, what: &str) -> FlowResult {
 }
 
 async fn read_flow(recv: &mut RecvStream, flow: &Flow) -> FlowResult {
+    if flow.read_start_delay_us > 0 {
+        tokio::time::sleep(Duration::from_micros(flow.read_start_delay_us)).await;
+    }
     let expected = pattern(flow.key, flow.len);
     let mut off = 0usize;
     let mut i = 0usize;
